@@ -408,7 +408,7 @@ func runC29(c *Ctx) {
 	}
 	info := pk.TypesInfo
 
-	c.Rule("R29a", "reader: every bufio.Scanner over the history file has its token limit raised to >= 1 GiB before the first Scan (or a bufio.Reader is used); the scan loop has no break/return/goto/panic (only end of input ends it); an iteration skips a line only on decode error or empty text; the decoded value is what is appended")
+	c.Rule("R29a", "reader: every bufio.Scanner over the history file has its token limit raised to >= 1 GiB before the first Scan (or a bufio.Reader is used, whose ReadLine pieces are reassembled: isPrefix is consulted); the scan loop has no break/return/goto/panic (only end of input ends it); an iteration skips a line only on decode error or empty text; the decoded value is what is appended")
 	c.Rule("R29b", "writer: the history file is opened O_APPEND|O_CREATE with write access and without O_TRUNC/O_EXCL on the receiver's filename; exactly one write carries the record and its bytes are <whitespace?><json.Marshal result><...newline> (one line, terminator in the same write); any other write to the file is a constant delimiter; the record write's error is the returned error; no other call in the package truncates, rewrites, renames or removes a file")
 	c.Rule("R29c", "framing after a crash: the record's bytes begin with a newline, or the function reads the file tail and conditionally emits a newline first — otherwise a torn (unterminated) last record swallows the next record appended")
 	c.Rule("R29d", "schema agreement: every field of the struct the reader decodes into that is not assigned by the reader itself has a JSON key (encoding/json rules, case-insensitive on decode) produced by the struct the writer marshals, with the same Go type; the writer's text field is derived from Write's parameter")
@@ -527,7 +527,38 @@ func (c *Ctx) c29Reader(pk *packages.Package, fd *ast.FuncDecl) (types.Type, map
 	sort.Slice(scanners, func(i, j int) bool { return scanners[i].call.Pos() < scanners[j].call.Pos() })
 	if len(scanners) == 0 {
 		if usesReader {
-			c.OK("R29a", fn+":record-limit", fd.Pos(), "%s reads through a bufio.Reader: no token-size limit applies", fn)
+			// ReadBytes/ReadString have no record limit; ReadLine has one in disguise: a line longer than the
+			// reader's buffer comes back in pieces flagged isPrefix, so a caller that drops the flag decodes
+			// fragments (each fails to parse and the long entry is lost)
+			pieces := false
+			ast.Inspect(fd.Body, func(n ast.Node) bool {
+				as, ok := n.(*ast.AssignStmt)
+				if !ok || len(as.Rhs) != 1 || len(as.Lhs) != 3 {
+					return true
+				}
+				call, ok := unparen0(as.Rhs[0]).(*ast.CallExpr)
+				if !ok || !callIs(info, call, "bufio", "Reader", "ReadLine") {
+					return true
+				}
+				used := false
+				if id, ok := as.Lhs[1].(*ast.Ident); ok && id.Name != "_" {
+					obj := info.ObjectOf(id)
+					ast.Inspect(fd.Body, func(m ast.Node) bool {
+						if u, ok := m.(*ast.Ident); ok && u != id && info.Uses[u] == obj {
+							used = true
+						}
+						return true
+					})
+				}
+				if !used {
+					pieces = true
+					c.Viol("R29a", fn+":record-limit", call.Pos(), "%s reads records with bufio.Reader.ReadLine and never looks at isPrefix: an entry longer than the reader's buffer is delivered in pieces, none of which decodes — the entry is lost", fn)
+				}
+				return true
+			})
+			if !pieces {
+				c.OK("R29a", fn+":record-limit", fd.Pos(), "%s reads through a bufio.Reader (ReadBytes/ReadString, or ReadLine with isPrefix consulted): no record-size limit applies", fn)
+			}
 		} else {
 			c.Undecided("R29a", fn+":record-limit", fd.Pos(), "%s creates a bufio reader that is not bound to a local variable; cannot decide its record-length limit", fn)
 		}
